@@ -15,6 +15,11 @@ type HashLiteral struct {
 
 	// Pairs stores the name/value sets of the hash-content
 	Pairs map[Expression]Expression
+
+	// Keys holds the keys of Pairs in the order in which they were
+	// written: a map has no order of its own, and the text of a key
+	// does not identify it.
+	Keys []Expression
 }
 
 func (hl *HashLiteral) expressionNode() {}
